@@ -269,8 +269,8 @@ Ltac run := run_ HM.
 Ltac go := go_ HM.
 Ltac crack := crack_ HM.
 
-(* the child x is visited: its result is the model's *)
-Definition child_ok (x : expr) : Prop := forall cols st, rec cols x st = Some (visit c cols x st).
+(* the child x is visited under the collections cols in the error state st: its result is the model's *)
+Definition child_ok (cols : list ty) (x : expr) (st : cst) : Prop := rec cols x st = Some (visit c cols x st).
 
 (* ---------------- leaves *)
 Lemma node_nil a cols st : VN cols (ENil a) st = Some (visit c cols (ENil a) st).
@@ -307,7 +307,7 @@ Proof.
 Qed.
 
 (* ---------------- one child *)
-Lemma node_unary a op x cols st : child_ok x -> VN cols (EUnary a op x) st = Some (visit c cols (EUnary a op x) st).
+Lemma node_unary a op x cols st : child_ok cols x st -> VN cols (EUnary a op x) st = Some (visit c cols (EUnary a op x) st).
 Proof.
   intros Hx. go. rewrite Hx. cbn [visit]. destruct (visit c cols x st) as [[t x'] st1]. run.
   unfold unary_rule, emit, fail_at, record.
@@ -315,7 +315,7 @@ Proof.
 Qed.
 
 Lemma node_property a x name ns cols st :
-  child_ok x -> VN cols (EProperty a x name ns) st = Some (visit c cols (EProperty a x name ns) st).
+  child_ok cols x st -> VN cols (EProperty a x name ns) st = Some (visit c cols (EProperty a x name ns) st).
 Proof.
   intros Hx. go. rewrite Hx. cbn [visit]. destruct (visit c cols x st) as [[t x'] st1]. run.
   unfold property_rule, emit, fail_at, record.
@@ -325,7 +325,7 @@ Proof.
   - destruct st1; reflexivity.
 Qed.
 
-Lemma node_closure a x cols st : child_ok x -> VN cols (EClosure a x) st = Some (visit c cols (EClosure a x) st).
+Lemma node_closure a x cols st : child_ok cols x st -> VN cols (EClosure a x) st = Some (visit c cols (EClosure a x) st).
 Proof.
   intros Hx. go. rewrite Hx. cbn [visit]. destruct (visit c cols x st) as [[t x'] st1]. run.
   destruct (is_nil_ty t); run; reflexivity.
@@ -333,18 +333,18 @@ Qed.
 
 (* ---------------- two children *)
 Lemma node_matches a re l r cols st :
-  child_ok l -> child_ok r -> VN cols (EMatches a re l r) st = Some (visit c cols (EMatches a re l r) st).
+  child_ok cols l st -> child_ok cols r (snd (visit c cols l st)) -> VN cols (EMatches a re l r) st = Some (visit c cols (EMatches a re l r) st).
 Proof.
-  intros Hl Hr. go. rewrite Hl. cbn [visit]. destruct (visit c cols l st) as [[tl l'] st1]. run.
+  intros Hl Hr. go. rewrite Hl. cbn [visit]. destruct (visit c cols l st) as [[tl l'] st1] eqn:V. try rewrite V in Hr. cbn [snd] in Hr. run.
   rewrite Hr. destruct (visit c cols r st1) as [[tr r'] st2]. run.
   unfold matches_rule, emit, fail_at, record.
   destruct (is_string tl); destruct (is_string tr); run; destruct st2; reflexivity.
 Qed.
 
 Lemma node_index a x i cols st :
-  child_ok x -> child_ok i -> VN cols (EIndex a x i) st = Some (visit c cols (EIndex a x i) st).
+  child_ok cols x st -> child_ok cols i (snd (visit c cols x st)) -> VN cols (EIndex a x i) st = Some (visit c cols (EIndex a x i) st).
 Proof.
-  intros Hl Hr. go. rewrite Hl. cbn [visit]. destruct (visit c cols x st) as [[tl l'] st1]. run.
+  intros Hl Hr. go. rewrite Hl. cbn [visit]. destruct (visit c cols x st) as [[tl l'] st1] eqn:V. try rewrite V in Hr. cbn [snd] in Hr. run.
   rewrite Hr. destruct (visit c cols i st1) as [[tr r'] st2]. run.
   unfold index_rule, emit, fail_at, record.
   destruct (index_type tl); run.
@@ -353,19 +353,20 @@ Proof.
 Qed.
 
 Lemma node_pair a k v cols st :
-  child_ok k -> child_ok v -> VN cols (EPair a k v) st = Some (visit c cols (EPair a k v) st).
+  child_ok cols k st -> child_ok cols v (snd (visit c cols k st)) -> VN cols (EPair a k v) st = Some (visit c cols (EPair a k v) st).
 Proof.
-  intros Hl Hr. go. rewrite Hl. cbn [visit]. destruct (visit c cols k st) as [[tl l'] st1]. run.
+  intros Hl Hr. go. rewrite Hl. cbn [visit]. destruct (visit c cols k st) as [[tl l'] st1] eqn:V. try rewrite V in Hr. cbn [snd] in Hr. run.
   rewrite Hr. destruct (visit c cols v st1) as [[tr r'] st2]. run. reflexivity.
 Qed.
 
 Lemma node_cond a cnd x y cols st :
-  child_ok cnd -> child_ok x -> child_ok y ->
+  child_ok cols cnd st -> child_ok cols x (snd (visit c cols cnd st)) ->
+  child_ok cols y (snd (visit c cols x (snd (visit c cols cnd st)))) ->
   VN cols (ECond a cnd x y) st = Some (visit c cols (ECond a cnd x y) st).
 Proof.
-  intros Hc Hx Hy. go. rewrite Hc. cbn [visit]. destruct (visit c cols cnd st) as [[tc cnd'] st1]. run.
+  intros Hc Hx Hy. go. rewrite Hc. cbn [visit]. destruct (visit c cols cnd st) as [[tc cnd'] st1] eqn:V. try rewrite V in Hx, Hy. cbn [snd] in Hx, Hy. run.
   destruct (is_bool tc); run.
-  - rewrite Hx. destruct (visit c cols x st1) as [[t1 x'] st2]. run.
+  - rewrite Hx. destruct (visit c cols x st1) as [[t1 x'] st2] eqn:V2. try rewrite V2 in Hy. cbn [snd] in Hy. run.
     rewrite Hy. destruct (visit c cols y st2) as [[t2 y'] st3]. run.
     unfold cond_rule. destruct (is_nil_ty t1); destruct (is_nil_ty t2); run; try reflexivity.
     destruct (assignable t1 t2); run; reflexivity.
@@ -373,33 +374,37 @@ Proof.
 Qed.
 
 (* after the sliced operand: the optional bounds *)
-Ltac slice_from f Hf :=
-  rewrite (Hf f eq_refl);
-  match goal with |- context [visit c ?cl f ?s] => destruct (visit c cl f s) as [[? ?] ?] end; run;
-  match goal with |- context [is_integer ?t] => destruct (is_integer t) end; run; [|fin].
-Ltac slice_to u Hu :=
-  rewrite (Hu u eq_refl);
-  match goal with |- context [visit c ?cl u ?s] => destruct (visit c cl u s) as [[? ?] ?] end; run;
-  match goal with |- context [is_integer ?t] => destruct (is_integer t) end; run; fin.
+Ltac slice_bound H :=
+  rewrite H;
+  match goal with |- context [visit c ?cl ?y ?s] => destruct (visit c cl y s) as [[? ?] ?] eqn:?V end; run;
+  match goal with |- context [is_integer ?t] => destruct (is_integer t) end; run.
 
 Lemma node_slice a x from to cols st :
-  child_ok x -> (forall f, from = Some f -> child_ok f) -> (forall u, to = Some u -> child_ok u) ->
+  child_ok cols x st ->
+  (forall f, from = Some f -> child_ok cols f (snd (visit c cols x st))) ->
+  (forall u, to = Some u ->
+     child_ok cols u (match from with
+                      | Some f => snd (visit c cols f (snd (visit c cols x st)))
+                      | None => snd (visit c cols x st)
+                      end)) ->
   VN cols (ESlice a x from to) st = Some (visit c cols (ESlice a x from to) st).
 Proof.
   intros Hx Hf Hu.
   destruct from as [f|]; destruct to as [u|]; go; rewrite Hx; cbn [visit];
-    destruct (visit c cols x st) as [[t x'] st1]; run; unfold sliceable, fail_at, record.
-  - destruct (index_type t) as [el|]; run; [|destruct (is_string t); run; [|fin]].
-    + slice_from f Hf. slice_to u Hu.
-    + slice_from f Hf. slice_to u Hu.
-  - destruct (index_type t) as [el|]; run; [|destruct (is_string t); run; [|fin]].
-    + slice_from f Hf. fin.
-    + slice_from f Hf. fin.
-  - destruct (index_type t) as [el|]; run; [|destruct (is_string t); run; [|fin]].
-    + slice_to u Hu.
-    + slice_to u Hu.
+    destruct (visit c cols x st) as [[t x'] st1] eqn:V; run; unfold sliceable, fail_at, record.
+  - specialize (Hf f eq_refl). specialize (Hu u eq_refl). try rewrite V in Hf, Hu. cbn [snd] in Hf, Hu.
+    destruct (index_type t) as [el|]; run; [|destruct (is_string t); run; [|fin]].
+    + slice_bound Hf; [|fin]. try rewrite V0 in Hu. cbn [snd] in Hu. slice_bound Hu; fin.
+    + slice_bound Hf; [|fin]. try rewrite V0 in Hu. cbn [snd] in Hu. slice_bound Hu; fin.
+  - specialize (Hf f eq_refl). try rewrite V in Hf. cbn [snd] in Hf.
+    destruct (index_type t) as [el|]; run; [|destruct (is_string t); run; [|fin]].
+    + slice_bound Hf; fin.
+    + slice_bound Hf; fin.
+  - specialize (Hu u eq_refl). try rewrite V in Hu. cbn [snd] in Hu.
+    destruct (index_type t) as [el|]; run; [|destruct (is_string t); run; [|fin]].
+    + slice_bound Hu; fin.
+    + slice_bound Hu; fin.
   - destruct (index_type t) as [el|]; run; [|destruct (is_string t); run; [|fin]]; fin.
 Qed.
-
 End Nodes.
 
